@@ -7,5 +7,6 @@ CONSTANTS
   Defects = {}
   Lock = TRUE
   Depth = 20
+  EvictingOnly = TRUE
 INVARIANTS Emit
 CHECK_DEADLOCK FALSE
